@@ -153,7 +153,9 @@ let call_event r tok =
        rstep r (ECmp (nat_of_int i, ok))
      | _ -> failwith ("bad event " ^ t));
     if !aborted then begin
-      Printf.printf "OBS %s %se%d - A\n" r.id r.pre r.k; r.stopped <- true
+      (* aborting a call that has already returned (or panicked) changes nothing: its status is reported *)
+      let status = if not (is_none r.st.panic) then "X" else if not (is_none r.st.result) then "R" else "A" in
+      Printf.printf "OBS %s %se%d - %s\n" r.id r.pre r.k status; r.stopped <- true
     end else begin
       if not nosettle then rstep r ESettle;
       let st = starts r.st.trace in
